@@ -19,7 +19,11 @@ import (
 func VerifH_C30_ModeFitsPolicy() {
 	vfCryptoInjective(true)
 	uris := []string{ua.SecurityPolicyURINone, ua.SecurityPolicyURIBasic256Sha256, ua.SecurityPolicyURIBasic128Rsa15}
-	uri := uris[vfConcrete(vfInt("policy", 0, vfParam("c30.policies", 3)-1))]
+	np := vfParam("c30.policies", 3)
+	if np > len(uris) {
+		np = len(uris)
+	}
+	uri := uris[vfConcrete(vfInt("policy", 0, np-1))]
 	mode := ua.MessageSecurityMode(vfU32("mode"))
 	hook := vfConcrete(vfInt("hook", 0, 2)) // no hook / accepts / refuses
 
